@@ -376,29 +376,50 @@ def _run_model_case(c, case):
                 c.inconc(f"model:parse-failed:{type(exc).__name__}")
                 return
             before = dict(c.events)
+            plan = None
+            want_q = sorted(m.get_names(kind=irispie.TRANSITION_VARIABLE | irispie.MEASUREMENT_VARIABLE))
             try:
-                hb = m.split_into_blocks(None)
+                for var, par in case.get("swaps") or []:
+                    # a steady plan that exogenizes a variable and endogenizes a parameter: the unknowns are no longer the
+                    # first n quantities of the model
+                    plan = plan or irispie.SteadyPlan(m)
+                    plan.swap((var, par))
+                    want_q = sorted((set(want_q) - {var}) | {par})
+                hb = m.split_into_blocks(plan)
             except Exception as exc:
                 c.inconc(f"split_into_blocks:raised:{type(exc).__name__}")
                 return
-            # human blocks must partition the steady equations and the transition+measurement variables
+            # human blocks must partition the steady equations and the unknowns
             eqs = [e for b in hb for e in b.equations]
             qs = [q for b in hb for q in b.quantities]
-            want_q = sorted(m.get_names(kind=irispie.TRANSITION_VARIABLE | irispie.MEASUREMENT_VARIABLE))
-            c.event("split_into_blocks", "model", key=("sib", len(eqs), len(hb)), nontrivial=len(eqs) >= 2)
+            c.event("split_into_blocks", "model" + (":plan" if plan is not None else ""), key=("sib", len(eqs), len(hb), plan is not None), nontrivial=len(eqs) >= 2)
             if sorted(qs) != want_q:
                 c.violation("split_into_blocks:quantities-not-partitioned", f"{sorted(qs)} vs {want_q}")
+                return
             if len(set(eqs)) != len(eqs) or len(eqs) != len(want_q):
                 c.violation("split_into_blocks:equations-not-partitioned", f"{len(eqs)} equations for {len(want_q)} unknowns")
+                return
+            # independent reading of the incidence: the unknowns named in each equation string (any time shift)
+            import re as _re
+            col = {q: j for j, q in enumerate(want_q)}
+            im = np.zeros((len(eqs), len(want_q)), dtype=bool)
+            for i, e in enumerate(eqs):
+                for nm in set(_re.findall(r"[A-Za-z_]\w*", e)):
+                    if nm in col:
+                        im[i, col[nm]] = True
+            blocks = [([eqs.index(e) for e in b.equations], list(b.quantities)) for b in hb]
+            for k_, msg in graph.check_blocks(im, list(range(len(eqs))), want_q, blocks):
+                c.violation("split_into_blocks:" + k_.split(":", 1)[1], msg + (" (with a steady plan)" if plan is not None else ""))
+                return
 
 
 def _model_source(rng, n):
     """small model with a perfect-matching steady structure: variable i is determined by equation i"""
     names = [f"x{i}" for i in range(n)]
-    lines = ["!transition-variables", "  " + ", ".join(names), "!parameters", "  rho", "!transition-shocks", "  " + ", ".join(f"e{i}" for i in range(n)), "!transition-equations"]
+    lines = ["!transition-variables", "  " + ", ".join(names), "!parameters", "  rho, " + ", ".join(f"cc{i}" for i in range(n)), "!transition-shocks", "  " + ", ".join(f"e{i}" for i in range(n)), "!transition-equations"]
     for i in range(n):
         others = [int(j) for j in rng.choice(n, size=int(rng.integers(0, min(n, 4))), replace=False) if int(j) != i]
-        rhs = [f"rho*{names[i]}[-1]", f"e{i}", "0.3"]
+        rhs = [f"rho*{names[i]}[-1]", f"e{i}", f"cc{i}"]
         for j in others:
             sh = int(rng.integers(-2, 2))
             rhs.append(f"0.1*{names[j]}" + (f"[{sh:+d}]" if sh else ""))
@@ -494,6 +515,9 @@ def shard(c):
             break
         n = int(rng.integers(2, c.scale(8, 14)))
         case = {"kind": "model", "source": _model_source(rng, n)}
+        if rng.random() < 0.5:
+            ks = [int(k_) for k_ in rng.choice(n, size=int(rng.integers(1, min(n, 3) + 1)), replace=False)]
+            case["swaps"] = [[f"x{k_}", f"cc{k_}"] for k_ in ks]
         try:
             _run_model_case(c, case)
         except Exception as exc:
